@@ -106,7 +106,7 @@ def cases(ctx):
                 yield "nl", {"kind": "grid", "lats": [-x for x in lats], "sorted_abs": True}
         i += 1
     rng = ctx.rng
-    for k in range(ctx.share(200 if quick else 4000)):
+    for k in range(ctx.share(1500 if quick else 4000)):
         lats = sorted(rng.uniform(0, 90) for _ in range(250))
         yield "nl", {"kind": "random", "lats": lats, "sorted_abs": True}
     # dense inside/around the 87 window
